@@ -442,7 +442,7 @@ def check_concat(ctx, unit):
         ats = [p["d"] for p in ps if re.match(r"^(size_t|unsigned long)$", p["t"])]
         inits = RA.local_inits(f)
 
-        def leaf(x):
+        def base_leaf(x):
             x = std_unwrap(x)
             if x.kind == "DeclRefExpr":
                 d = x.d["d"]
@@ -452,6 +452,21 @@ def check_concat(ctx, unit):
                         return Poly.const(c)
                 return Poly.sym("v%d" % d)
             return None
+        from .poly import lockstep_env
+        _envs = {}
+
+        def leaf(x):
+            # running indices that advance in lock-step with the loop counter are expressed through it
+            xs = std_unwrap(x)
+            if xs.kind == "DeclRefExpr" and RA._reassigned(f, xs.d["d"]) or (xs.kind == "DeclRefExpr" and any(
+                    n_.kind == "UnaryOperator" and n_.op in ("++", "--") and std_unwrap(n_.children[0]).kind == "DeclRefExpr"
+                    and std_unwrap(n_.children[0]).d["d"] == xs.d["d"] for n_ in f.events())):
+                key = xs.id
+                if key not in _envs:
+                    _envs[key] = lockstep_env(f, xs, base_leaf)
+                if xs.d["d"] in _envs[key]:
+                    return _envs[key][xs.d["d"]]
+            return base_leaf(x)
         problems = []
         stores = []
         for n in f.events():
